@@ -14,6 +14,8 @@ mod wext;
 pub use wext::WExt;
 pub mod fmtx;
 pub mod recser;
+pub mod azx;
+pub use azx::{az_fixed, rec_az, AzExt, AzR, AzTo};
 
 /// bits -> value through the public `from_bits`
 #[inline]
@@ -53,7 +55,7 @@ where
 /// by-reference operator impls, integer-on-the-left multiplication, the
 /// signed-only and unsigned-only methods.  Implemented by forwarding to the
 /// real operator / inherent method for each family.
-pub trait Ext: Fixed {
+pub trait Ext: Fixed + AzExt {
     const IS_SIGNED: bool;
     // by-reference operator spellings: (&a op &b, &a op b, a op &b) must all exist
     fn x_add_refs(a: &Self, b: &Self) -> [Self; 3];
